@@ -474,7 +474,6 @@ def run(tier):
             ("lpa-current-4-len6", "ds/LPAstar", _lpa_cfg("lpa-current-4-len6", False, False, maxlen=6, **dict(lpa4, w=(1, 2, 3), hsel=1)), "ok", None),
             ("sssp-tiefree-3-ordered", "ds/DynamicSSSP", _sssp_cfg("sssp-tiefree-3-ordered", view="SViewOrdered", kind="sssp", n=3, w=(1, 2, 4), maxe=4), "ok", None),
             ("sssp-tiefree-4", "ds/DynamicSSSP", _sssp_cfg("sssp-tiefree-4", kind="sssp", n=4, w=(1, 2, 4), maxe=3), "ok", None),
-            ("lpad-current-3-e6", "ds/LPAstar", _lpa_cfg("lpad-current-3-e6", False, False, **dict(lpad_small, maxe=6)), "ok", None),
         ]
     # ---- 3. state graphs to replay
     if quick:
